@@ -9,7 +9,10 @@ CHECK = {
              'above it, SIZE_MAX/elem-1, SIZE_MAX/elem, SIZE_MAX/elem+1, (n+1)*elem wrapping to a small byte count, 2^62, '
              '2^63, SIZE_MAX-1, SIZE_MAX} x {allocator normal, every allocation request fails} one call followed by '
              'at/at_const of the same value, sort, reverse, resize(size+1), shrink_to_fit, resize(size-2), reserve(SIZE_MAX), '
-             'clear, re-use; plus seeded random histories (200-1500 calls) over one or two vectors mixing resize, reserve, '
+             'clear, re-use; plus swap cells: two DIFFERENTLY initialised vectors (element size x element size x start '
+             'state x start state x four constructor/destructor pairings, each with its own priv) are swapped (both '
+             'argument orders), then each is grown, sorted, reversed, probed, shrunk, swapped back, cleared; plus seeded '
+             'random histories (200-1500 calls) over one or two vectors (independent element size and xtor mode) mixing resize, reserve, '
              'shrink_to_fit, clear, swap, sort (all algorithms), reverse, at, at_const with the same argument classes and '
              'occasional failpoints. After EVERY call: size() equals the reference; cap >= size; data() is a live block '
              'allocated by the library whose requested size is >= (cap+1)*elem in 128-bit arithmetic (NULL only with '
@@ -26,11 +29,15 @@ CHECK = {
              'check priv, slot address == data()+i*elem at the time of the call, i inside the entering/leaving range, the '
              'slot state machine dead->live->dead, and the per-call count; the destructor also checks that the element '
              'still holds its bytes. clear destroys every element and the live library block count drops by the buffer. '
-             'A case is distinct by (element size, operation, argument class, state class before the call); all are '
+             'swap exchanges the whole object, so the reference exchanges byte image, element size, xtor mode, slot '
+             'liveness and priv identity; every audit afterwards uses the NEW element size (at(i) == data()+i*elem, '
+             'storage >= (cap+1)*elem, constructor/destructor slot and priv). '
+             'A case is distinct by (element size, operation, argument class, state class before the call; for swap: both '
+             'element sizes, both state classes, argument order); all are '
              'non-trivial.'),
     'assumptions': ['the allocator refuses every request above 64 MiB (vrt_alloc_cap); failpoints make every allocation request fail for one call',
                     'element counts that are really constructed stay <= 4096; one real 64 MiB reserve per matrix cell',
-                    'swap only between two distinct vectors of equal element size and constructor/destructor functions',
+                    'swap only between two distinct vector objects (never self-swap); they may differ in element size, constructor/destructor and priv',
                     'the comparison function is memcmp over the element bytes (a total order), so the sorted image is unique',
                     'shrink_to_fit, sort, reverse, swap, clear are not expected to abort (an abort there is reported as unexpected)',
                     'a request below the allocator cap that the real allocator nevertheless fails (genuine out-of-memory, counted as alloc.genuine-out-of-memory) is treated as one that cannot be satisfied',
